@@ -212,7 +212,7 @@ func genLC(rt *rapid.T, gates bool, known map[string]bool, col *Collector) []lcS
 			}
 			if k == "gateHandshake" {
 				st.Car = rapid.SampledFrom([]string{"websocket", "webtransport"}).Draw(rt, l+".gcar")
-				st.Cause = rapid.SampledFrom([]string{"drop", "dropInOpenFlush", "dropInOpenFlush", "none", "dropHeldInOnClose", "dropHeldInOnClose"}).Draw(rt, l+".gcause")
+				st.Cause = rapid.SampledFrom([]string{"drop", "dropInOpenFlush", "dropInOpenFlush", "none", "dropHeldInOnClose", "dropHeldInOnClose", "dropBeforeOpen", "dropBeforeOpen"}).Draw(rt, l+".gcause")
 			}
 			st.Rev = 4
 			if st.Car != "webtransport" && rapid.IntRange(0, 3).Draw(rt, l+".rev3") == 0 {
@@ -715,6 +715,9 @@ func (lw *lcWorld) handshake(st lcStep) {
 	if inFlush {
 		flushCh = make(chan struct{})
 		lw.flushPark, lw.flushParked = flushCh, false
+	} else if gated && st.Cause == "dropBeforeOpen" {
+		// the session is attached to its transport (whose reader runs) and not yet declared open
+		gp = lw.arm("socket.Construct.listening")
 	} else if gated {
 		gp = lw.arm("server.Handshake.constructed")
 	}
@@ -782,6 +785,16 @@ func (lw *lcWorld) handshake(st lcStep) {
 			// the session object exists and is open, the server has not registered it yet
 			switch st.Cause {
 			case "drop":
+				if s.wc != nil {
+					s.wc.Drop()
+				} else {
+					s.tc.Drop()
+				}
+				s.addCause("drop")
+				Settle()
+			case "dropBeforeOpen":
+				// the peer is gone before the session was ever open: the reader goroutine reports it at once
+				lw.stats["peer-gone-before-the-session-is-declared-open"] = true
 				if s.wc != nil {
 					s.wc.Drop()
 				} else {
@@ -1353,7 +1366,7 @@ func TestC03Lifecycle(t *testing.T) {
 		req = append(req, "cause-inside-Close-window")
 	}
 	if !known[sigDiedInHS] {
-		req = append(req, "cause-during-handshake", "close-half-done-while-the-handshake-registers-the-session")
+		req = append(req, "cause-during-handshake", "close-half-done-while-the-handshake-registers-the-session", "peer-gone-before-the-session-is-declared-open")
 	}
 	col.RequireClasses(t, req...)
 }
@@ -1388,7 +1401,7 @@ func TestC04Registry(t *testing.T) {
 	}
 	req := []string{"closed-session-named-with-transport-polling", "closed-session-named-with-transport-websocket", "server-close", "shutdown>=2-sessions", "activity-after-close", "table-consolidated-inside-delete-window", "table-consolidated-inside-lookup-window", "closed-inside-the-connection-listener", "server-write-fails-before-its-reader-notices", "peer-stops-reading"}
 	if !known[sigDiedInHS] {
-		req = append(req, "cause-during-handshake", "close-half-done-while-the-handshake-registers-the-session")
+		req = append(req, "cause-during-handshake", "close-half-done-while-the-handshake-registers-the-session", "peer-gone-before-the-session-is-declared-open")
 	}
 	col.RequireClasses(t, req...)
 }
